@@ -2,6 +2,7 @@ import SmsVerif.Driver.C20
 import SmsVerif.Driver.Layout
 import SmsVerif.Driver.Meta
 import SmsVerif.Driver.Auth
+import SmsVerif.Driver.Gsm7
 open SmsVerif SmsVerif.Driver
 
 def dispatch (line : String) : String :=
@@ -12,6 +13,7 @@ def dispatch (line : String) : String :=
   | "dec" :: toks => (handleDec toks).getD "bad-op"
   | "decalloc" :: toks => (handleDecAlloc toks).getD "bad-op"
   | ["pdus"] => handlePdus
+  | "gsm" :: toks => (handleGsm toks).getD "bad-op"
   | "authin" :: toks => (handleAuthIn toks).getD "bad-op"
   | "meta" :: toks => (handleMeta toks).getD "bad-op"
   | "dispatch" :: toks => (handleDispatch toks).getD "bad-op"
